@@ -306,3 +306,170 @@ Proof.
     + eapply fwdsend_U; eauto.
   - revert H. unfold uok, do_act. destruct a; try contradiction; repeat dest_match; passU LV.
 Qed.
+
+(* ------------------------------------------------------------------ *)
+(** * A counted holder means a live cell *)
+
+Lemma live_census k s a : J k s -> Fz s -> 1 <= hmops (HR a) k + hst (HR a) s -> live s a.
+Proof.
+  intros JJ Z L. destruct (J_ref_live _ _ _ JJ L) as (x & A & R & _). exists x. split; [exact A|].
+  destruct (a_freed x) eqn:F; [|reflexivity]. rewrite (Z _ _ A F) in R. lia.
+Qed.
+
+Lemma J_LIVE k s : J k s -> Fz s -> LIVE s.
+Proof. intros JJ Z a L. eapply live_census; eauto. pose proof (hmops_nn (HR a) k). lia. Qed.
+
+Lemma J_PJ m k0 s : J (m :: k0) s -> PJ (fun x => hmop x m) s.
+Proof. intros JJ y RY. destruct (JJ y RY) as [R0 J0]. split; [exact R0|]. cbn [hmops] in J0. pose proof (hmops_nn y k0). lia. Qed.
+
+Lemma live_head m k0 s a : J (m :: k0) s -> Fz s -> 1 <= hmop (HR a) m -> live s a.
+Proof.
+  intros JJ Z L. eapply live_census; eauto. cbn [hmops]. pose proof (hmops_nn (HR a) k0). pose proof (hst_nn (HR a) s). lia.
+Qed.
+
+(* ------------------------------------------------------------------ *)
+(** * The micro-ops *)
+
+Definition nouaf (s s' : st) : Prop := evs_in pbU s s' /\ Fz s'.
+
+Lemma uok_nouaf s s' : Fz s -> uok s s' -> nouaf s s'.
+Proof. intros Z [A B]. split; [exact A | eapply fmono_Fz; eauto]. Qed.
+
+Lemma runitem_U c k0 s pre s' : J (MRunItem c :: k0) s -> Fz s -> run_item c s = (pre, s') -> uok s s'.
+Proof.
+  intros JJ Z. unfold run_item. destruct c as [u i kd caps q].
+  assert (LH : forall a, 1 <= hkind (HR a) kd -> live s a).
+  { intros a L. apply (live_head _ _ _ _ JJ Z). cbn [hmop]. rewrite hci_eq. pose proof (henv_nn (HR a) caps). destruct (rkb kd); lia. }
+  destruct kd as [body|a body arg|a body ready|p key|a|a e].
+  - intros Q; inj_R Q. split; [eiU | fm_tac].
+  - assert (LA : live s a) by (apply LH; cbn [hkind]; rewrite hind_refl; lia). destruct LA as (x & A & F). rewrite A.
+    destruct (a_state x); intros Q; inj_R Q; (split; [eiU | fm_tac]).
+  - assert (LA : live s a) by (apply LH; cbn [hkind]; rewrite hind_refl; lia). destruct LA as (x & A & F). rewrite A.
+    destruct (ob (count_is_prep (a_strong x))); intros Q; inj_R Q; (split; [eiU | fm_tac]).
+  - assert (LA : live s p) by (apply LH; cbn [hkind]; rewrite hind_refl; lia). destruct LA as (x & A & F). rewrite A.
+    destruct (a_state x) as [held|sh slab nx|]; [| destruct (nth_error slab (N.to_nat key)) as [[child|n0]|] |]; intros Q; inj_R Q; (split; [eiU | fm_tac]).
+  - intros Q; inj_R Q. split; [eiU | fm_tac].
+  - intros Q; inj_R Q. split; [eiU | fm_tac].
+Qed.
+
+Lemma dropown_U a lg k0 s pre s' : J (MDropOwn a lg :: k0) s -> Fz s -> drop_own a lg s = (pre, s') -> uok s s'.
+Proof.
+  intros JJ Z. assert (LA : live s a).
+  { apply (live_head _ _ _ _ JJ Z). cbn [hmop]. rewrite hind_refl. pose proof (hind_range (HR a) (HO a)). lia. }
+  destruct LA as (x & A & F). unfold drop_own.
+  set (s0 := if lg then emit s (EOwnDrop a) else s).
+  assert (A0 : aget (actors s0) a = Some x) by (unfold s0; destruct lg; exact A).
+  assert (U0 : uok s s0) by (unfold s0; destruct lg; (split; [eiU | fm_tac])).
+  rewrite A0. destruct (count_dec (a_strong x)) as [[v z]|].
+  - destruct z; intros Q; inj_R Q; (eapply uok_trans; [exact U0|]).
+    + assert (L1 : live (upd_actor s0 a (with_strong x v)) a) by (eapply live_upd; eauto). split; [eiU | fm_tac].
+    + split; [eiU | fm_tac].
+  - intros Q; inj_R Q. eapply uok_trans; [exact U0|]. split; [eiU | fm_tac].
+Qed.
+
+Lemma dropref_U a k0 s pre s' : J (MDropRef a :: k0) s -> Fz s -> drop_ref a s = (pre, s') -> nouaf s s'.
+Proof.
+  intros JJ Z. assert (LA : live s a) by (apply (live_head _ _ _ _ JJ Z); cbn [hmop]; rewrite hind_refl; lia).
+  destruct LA as (x & A & F). unfold drop_ref. rewrite A, F.
+  destruct (minrc_drop (a_rc x)) as [[v z]|] eqn:MD.
+  - destruct z.
+    + destruct (state_drops a (a_state x) _) as [dl s2] eqn:SD. destruct (state_drops_h (HR a) _ _ _ _ _ SD) as [-> _].
+      intros Q; inj_R Q. split; [eiU|].
+      assert (V0 : v = 0).
+      { pose proof (rc_range _ _ _ _ (J_PJ _ _ _ JJ) A) as RR. destruct (drop_cases _ _ _ RR MD) as [(_ & E & _)|(D & _)]; [exact E | discriminate D]. }
+      subst v. intros b y' G FR. change (actors (emit ?s0 ?e)) with (actors s0) in G. rewrite aget_upd_any in G. destruct (N.eqb a b) eqn:E.
+      * inversion G; subst y'. reflexivity.
+      * eapply Z; eauto.
+    + intros Q; inj_R Q. apply uok_nouaf; [exact Z|]. split; [eiU | fm_tac].
+  - intros Q; inj_R Q. apply uok_nouaf; [exact Z|]. split; [eiU | fm_tac].
+Qed.
+
+Lemma retinvoke_U r m0 k0 s pre s' : J (MRetInvoke r m0 :: k0) s -> Fz s -> ret_invoke r m0 s = (pre, s') -> uok s s'.
+Proof.
+  intros JJ Z. unfold ret_invoke. destruct r as [rid k].
+  destruct k as [caps body|a ci|a ci|a inner|p key inner]; try (repeat dest_match; intros Q; inj_R Q; (split; [eiU | fm_tac]); fail).
+  assert (LP : live s p).
+  { apply (live_head _ _ _ _ JJ Z). cbn [hmop]. rewrite hret_eq, hrk_slab, hind_refl. pose proof (hret_nn (HR p) inner). lia. }
+  destruct m0; intros Q; inj_R Q; (split; [eiU | fm_tac]).
+Qed.
+
+Lemma terminate_U a c s pre s' : live s a -> terminate a c s = (pre, s') -> uok s s'.
+Proof.
+  intros (x & A & F). unfold terminate. rewrite A, F.
+  destruct (state_drops a (a_state x) _) as [dl s2] eqn:SD. destruct (state_drops_h (HR a) _ _ _ _ _ SD) as [-> _].
+  destruct (a_notify x); intros Q; inj_R Q; (split; [eiU|]);
+    (apply (fmono_upd s a x); [exact A | cbn [a_freed]; symmetry; exact F | intros FR; rewrite F in FR; discriminate FR]).
+Qed.
+
+Lemma toready_U a s pre s' : live s a -> handle (MToReady a) s = (pre, s') -> uok s s'.
+Proof.
+  intros (x & A & F). cbn [handle]. rewrite A. destruct (a_state x); intros Q; inj_R Q; (split; [eiU|]); try (apply fmono_same; reflexivity).
+  eapply fmono_trans; [|apply fmono_same; apply actors_emit]. apply (fmono_upd s a x); [exact A | reflexivity | reflexivity].
+Qed.
+
+Lemma class_flag_U all p e : class_flag all p = Some e -> pbU e = true.
+Proof.
+  unfold class_flag. destruct (a_freed (snd p)); [discriminate|].
+  destruct (a_state (snd p)) as [[|c hl]| |]; try discriminate.
+  - intros E; inversion E. reflexivity.
+  - destruct (existsb _ _); [|discriminate]. intros E; inversion E. reflexivity.
+Qed.
+
+Lemma fold_flags_U (f : N * actor -> option ev) (FU : forall p e, f p = Some e -> pbU e = true) l : forall s,
+  exists fl, tr (fold_left (fun s0 p => emit_opt s0 (f p)) l s) = fl ++ tr s /\ forallb pbU fl = true /\
+             actors (fold_left (fun s0 p => emit_opt s0 (f p)) l s) = actors s.
+Proof.
+  induction l as [|p l IH]; simpl; intros s; [exists []; auto|].
+  destruct (IH (emit_opt s (f p))) as (fl & TR & PF & AC). unfold emit_opt in *. destruct (f p) as [e|] eqn:E.
+  - exists (fl ++ [e]). rewrite TR, AC. split; [rewrite <- app_assoc; reflexivity|]. split; [|reflexivity].
+    rewrite forallb_app, PF. simpl. rewrite (FU _ _ E). reflexivity.
+  - exists fl. auto.
+Qed.
+
+Lemma class_flags_U s : exists fl, tr (class_flags s) = fl ++ tr s /\ forallb pbU fl = true.
+Proof.
+  unfold class_flags. destruct (fold_flags_U (class_flag (actors s)) (class_flag_U (actors s)) (actors s) s) as (fl & A & B & _). eauto.
+Qed.
+Lemma actors_class_flags s : actors (class_flags s) = actors s.
+Proof.
+  unfold class_flags. destruct (fold_flags_U (class_flag (actors s)) (class_flag_U (actors s)) (actors s) s) as (fl & _ & _ & C). exact C.
+Qed.
+
+(* the micro-ops that touch no cell count and emit no model event about cells *)
+Lemma plain_U m s pre s' :
+  match m with MActs _ | MRunItem _ | MDropOwn _ _ | MDropRef _ | MRetInvoke _ _ | MTerminate _ _ | MToReady _ => False | _ => True end ->
+  handle m s = (pre, s') -> uok s s'.
+Proof.
+  intros SP. assert (LV : LIVE s -> True) by auto. unfold uok.
+  destruct m; try contradiction; cbn [handle].
+  - unfold do_top. destruct o; repeat dest_match; intros Q; inj_R Q; (split; [eiU | fm_tac]).
+  - destruct (frames s); intros Q; inj_R Q; (split; [eiU | fm_tac]).
+  - destruct (frames s); intros Q; inj_R Q; (split; [eiU | fm_tac]).
+  - unfold drop_item. destruct c as [u i kd caps q]. destruct kd; intros Q; inj_R Q; (split; [eiU | fm_tac]).
+  - intros Q; inj_R Q; (split; [eiU | fm_tac]).
+  - unfold drop_val. destruct v; repeat dest_match; intros Q; inj_R Q; (split; [eiU | fm_tac]).
+  - intros Q; inj_R Q; (split; [eiU | fm_tac]).
+  - intros Q; inj_R Q; (split; [eiU | fm_tac]).
+  - intros Q; inj_R Q; (split; [eiU | fm_tac]).
+  - intros Q; inj_R Q; (split; [eiU | fm_tac]).
+  - destruct (aget (actors s) a); intros Q; inj_R Q; (split; [eiU | fm_tac]).
+  - unfold fresh_stakker. intros Q; inj_R Q; (split; [eiU | fm_tac]).
+  - destruct idle; [destruct (idleq s)|]; intros Q; inj_R Q; (split; [eiU | fm_tac]).
+  - destruct (t >? now (set_mainq s [])).
+    + destruct (fire t _) as [fired s2] eqn:FI. unfold fire in FI. injection FI as ? ?; subst. intros Q; inj_R Q.
+      destruct (ambiguous _); (split; [eiU | fm_tac]).
+    + intros Q; inj_R Q; (split; [eiU | fm_tac]).
+  - repeat dest_match; intros Q; inj_R Q; (split; [eiU | fm_tac]).
+  - repeat dest_match; intros Q; inj_R Q; (split; [eiU | fm_tac]).
+  - cbv zeta. destruct (ambiguous (timers s)); intros Q; inj_R Q; (split; [eiU | fm_tac]).
+  - repeat dest_match; intros Q; inj_R Q; (split; [eiU | fm_tac]).
+  - repeat dest_match; intros Q; inj_R Q; (split; [eiU | fm_tac]).
+  - intros Q; inj_R Q; (split; [eiU | fm_tac]).
+  - (* MLeaks *) intros Q; inj_R Q. split.
+    + destruct (class_flags_U s) as (fl & TR1 & PF).
+      exists (rev (leaks (rev (tr (class_flags s)))) ++ fl). split.
+      * change (tr (set_tr ?x ?v)) with v. rewrite TR1 at 2. rewrite app_assoc. reflexivity.
+      * rewrite forallb_app, PF, andb_true_r. apply forallb_forall. intros e IN. apply in_rev in IN. unfold leaks in IN.
+        apply in_map_iff in IN as (p & <- & _). reflexivity.
+    + apply fmono_same. cbn [actors set_tr]. apply actors_class_flags.
+Qed.
